@@ -2334,6 +2334,18 @@ impl Zeroconf {
     ) -> Vec<u8> {
         let is_ipv4 = sock.domain() == Domain::IPV4;
 
+        // Only say goodbye where the service has been announced. While it is still
+        // probing on this interface it has not claimed its names there, and a goodbye
+        // would withdraw records that may belong to another host.
+        let announced = info.get_status(intf.index) == ServiceStatus::Announced
+            || self.dns_registry_map.get(&intf.index).is_some_and(|r| {
+                r.active
+                    .contains_key(r.resolve_name(info.get_fullname()))
+            });
+        if !announced {
+            return vec![];
+        }
+
         let mut out = DnsOutgoing::new(FLAGS_QR_RESPONSE | FLAGS_AA);
         out.add_answer_at_time(
             DnsPointer::new(
